@@ -83,6 +83,9 @@ def argparse_src(name, params, summary=SUMMARY):
 OTHER_BEFORE = "import os\nfrom typing import Literal\n\nCONST = 5\n\n\ndef helper(dataset_name, K=2):\n    \"\"\"helper shares parameter names\"\"\"\n    return dataset_name, K\n\n\n"
 OTHER_AFTER = "\n\nclass Other(object):\n    \"\"\"another class\"\"\"\n\n    epochs: int = 99\n\n    def train(self, epochs=1):\n        return epochs\n\n\nTAIL = helper(1)\n"
 
+# a file whose last line is a comment inside an indented block (with newline=False: no trailing newline)
+OTHER_COMMENT_TAIL = "import os\n\n\nclass Options(object):\n    \"\"\"holder\"\"\"\n\n    verbose = False\n    # TODO: more options\n"
+
 NAMES = {"class": "ConfigClass", "function": "train", "argparse_function": "set_cli_args"}
 
 
@@ -137,6 +140,8 @@ class Project:
                 self._write(path, "")
             elif ps == "absent":
                 src = OTHER_BEFORE + OTHER_AFTER.lstrip("\n")
+                if not self.newline and not self.surround:
+                    src = OTHER_COMMENT_TAIL  # the other no-trailing-newline shape: an indented comment as last line
                 self._write(path, src if self.newline else src.rstrip("\n"))
             elif ps == "stale":
                 src = kind_src(kind, stale_params(self.params), method=(kind == "function" and self.method))
